@@ -340,6 +340,7 @@ var c19hangs int
 
 func c19exec(c *h.Ctx, cs *h.Case) {
 	log.SetDebugVisible(0)
+	c19workdir = c.Workdir
 	if c19hangs >= 2 {
 		cs.NoModel, cs.Trivial, cs.Outcome = true, true, "skipped-after-hangs"
 		return
@@ -804,6 +805,8 @@ func c19run(res *c19result, mu *sync.Mutex) {
 			emit(e.runTest(tk, fail))
 		case tk[1] == "proxied" && len(tk) == 6:
 			emit(e.proxied(tk, fail))
+		case tk[1] == "runtests" && len(tk) >= 6:
+			emit(e.runTests(tk, fail))
 		case tk[1] == "mupd" && len(tk) == 5:
 			x, ok := c19parseBits(tk[3])
 			host, err := strconv.Atoi(tk[4])
@@ -1915,6 +1918,64 @@ func c19genAll(c *h.Ctx, yield func(*h.Case)) {
 		yield(g.cs)
 	}
 
+	// ---- the write-out side: simul.RunTests over several run configurations (c19runtests.go): ranges, failing runs,
+	// runs with different numbers of buckets, result files that exist before
+	runSpec := func(nb, nconn, per int, k int, names []string) string {
+		var groups []string
+		for b := 0; b < nb; b++ {
+			var rules []string
+			for q := 0; q < 1+r.Intn(3); q++ {
+				lo := r.Intn(12)
+				rules = append(rules, fmt.Sprintf("%d:%d", lo, lo+r.Intn(8)))
+			}
+			groups = append(groups, c19hexRules(rules))
+		}
+		var parts []string
+		for q := 0; q < nconn; q++ {
+			var recs []string
+			for j := 0; j < r.Intn(per+1); j++ {
+				recs = append(recs, fmt.Sprintf("%s/%s/%d", names[r.Intn(len(names))], bitsOf(g.value(k)), g.host()))
+			}
+			parts = append(parts, c19join(recs, ","))
+		}
+		return fmt.Sprintf("%d~%d~%d~%s~%s", 1+r.Intn(64), 2+r.Intn(8), 1+r.Intn(4), c19join(groups, ";"), strings.Join(parts, ";"))
+	}
+	start("corpus-runtests-files") // three runs (3, failing, 1 result sets), then -range 1:2 appended to what is there
+	g.op("runtests f - 0 4~2~1~%s;%s~round/4000000000000000/1,setup/4024000000000000/7;round/4010000000000000/2 E 4~2~1~-~round/4008000000000000/1",
+		c19hexRules([]string{"0:2"}), c19hexRules([]string{"5:9", "1:2"}))
+	g.op("runtests f 1:2 2 4~2~1~-~a/4000000000000000/1 4~2~1~-~b/4000000000000000/1 4~2~1~%s~b/4010000000000000/1,a/4000000000000000/0 4~2~1~-~c/4000000000000000/1", c19hexRules([]string{"0:1"}))
+	g.op("runtests f 1 0 4~2~1~-~a/4000000000000000/1 4~2~1~-~zeta/4000000000000000/1,alpha/4008000000000000/1")
+	yield(g.cs)
+	for i := 0; i < c.Pick(30, 300); i++ {
+		start("runtests")
+		nruns := 1 + r.Intn(4)
+		names := []string{c19names[r.Intn(7)], c19names[r.Intn(7)], c19extra[r.Intn(len(c19extra))]}
+		var runs []string
+		for q := 0; q < nruns; q++ {
+			if r.Intn(6) == 0 {
+				runs = append(runs, "E")
+			} else {
+				runs = append(runs, runSpec(r.Intn(3), 1+r.Intn(3), 5, g.kind(), names[:1+r.Intn(3)]))
+			}
+		}
+		rng := "-"
+		switch r.Intn(8) {
+		case 0:
+			rng = strconv.Itoa(r.Intn(nruns + 1))
+		case 1:
+			rng = fmt.Sprintf("%d:%d", r.Intn(nruns), r.Intn(nruns+1))
+		case 2:
+			rng = fmt.Sprintf("%d:", r.Intn(nruns))
+		case 3:
+			rng = []string{":1", "x", "1:x", "+1:2", "0:1:2", ":"}[r.Intn(6)]
+		}
+		c.Count("runtests-range=" + map[bool]string{true: "none", false: "given"}[rng == "-"])
+		c.Count(fmt.Sprintf("runtests-runs=%d", nruns))
+		g.op("runtests f %s %d %s", rng, r.Intn(4), strings.Join(runs, " "))
+		c.Count("op=runtests")
+		yield(g.cs)
+	}
+
 	// ---- lines the model must refuse exactly as the harness does ----------------------------
 	for _, ops := range [][]string{
 		{"c19 values nosuch"}, {"c19 mon nosuch"}, {"c19 stats s hosts=1 -", "c19 stats s hosts=1 -"},
@@ -1924,6 +1985,7 @@ func c19genAll(c *h.Ctx, yield func(*h.Case)) {
 		{"c19 stats s hosts=1 -", "c19 mon s", "c19 tmeasure round 1 1 fresh"}, {"c19 stats s hosts=1 -", "c19 mon s", "c19 cmeasure net 1 1.2.3.4"},
 		{"c19 runtest g 0 2 1 - -"}, {"c19 runtest g 4 2 1 zz -"}, {"c19 runtest g 4 2 1 - m/zz/1"}, {"c19 runtest g 4 2 1 " + c19hexRules([]string{"1-5"}) + " -"},
 		{"c19 stats g hosts=1 -", "c19 runtest g 4 2 1 - -"}, {"c19 runtest g 4 2 x - -"},
+		{"c19 runtests F - 0 4~2~1~-~-"}, {"c19 runtests f - 9 4~2~1~-~-"}, {"c19 runtests f - 0 4~2~1~-"}, {"c19 runtests f - 0 4~2~1~zz~-"}, {"c19 runtests f ;; 0 E"},
 		{"c19 proxied g 4 2 z:-"}, {"c19 proxied g 0 2 o:-"}, {"c19 proxied g 4 2 o:m/zz/1"}, {"c19 proxied g 4 2 o"},
 	} {
 		start("refused")
